@@ -7,13 +7,14 @@ from props import xpath_common as X
 from props.c02 import gen_value
 
 
-def render_suffix(steps, base_len):
+def render_suffix(steps, base_len, pad=""):
+    """pad: blanks between a name and its bracket ('b [new()]' names the same node as 'b[new()]')"""
     s = ""
     for st in steps:
         if st[0] == "name":
             s += "/" + st[1]
         elif st[0] == "namenew":
-            s += "/%s[%s]" % (st[1], st[2])
+            s += "/%s%s[%s]" % (st[1], pad, st[2])
         else:
             s += "[new()]" if st[1] == "new" else "[%d]" % base_len
     return s
@@ -121,7 +122,7 @@ class C03(Prop):
                     if ref is None:
                         continue
                     base = X.render(cur, p, rng, style=rng.choice([0, 1, 2])) if p else ""
-                    xp = base + render_suffix(steps, len(x) if isinstance(x, list) else 0)
+                    xp = base + render_suffix(steps, len(x) if isinstance(x, list) else 0, pad=rng.choice(["", "", "", " ", "  "]))
                     if not base:
                         xp = xp.lstrip("/") if rng.random() < 0.5 and "/" in xp.lstrip("/") + "[" else xp
                     ops.append(["set", xp, v])
@@ -134,7 +135,7 @@ class C03(Prop):
                         continue
                     p, x = rng.choice(cands)
                     v = gen_value(rng)
-                    ops.append(["set", X.render(cur, p, rng, style=0) + "[new()]", v])
+                    ops.append(["set", X.render(cur, p, rng, style=0) + rng.choice(["", "", " "]) + "[new()]", v])
                     metas.append({"kind": "wrap", "pos": list(p)})
                     cur = X.ref_set(cur, p, [copy.deepcopy(x), copy.deepcopy(v)])
                 elif k < 0.8 and len(nodes) > 1:
